@@ -3,7 +3,7 @@
    Model: Model/Symtab.v (environment.go MakeSymbol / GenSymbol / Duplicate / Clone over a family of
    members sharing symtable and revsymtable, each with its own nextsymbol counter). *)
 From Coq Require Import ZArith Bool List.
-From ZV Require Import Model.Symtab Proofs.SymtabProofs.
+From ZV Require Import Model.Symtab Generated.GensymSites Model.SymtabScript Proofs.SymtabProofs Proofs.SymtabScriptProofs.
 Import ListNotations.
 Open Scope Z_scope.
 
@@ -154,3 +154,103 @@ Example ex_spec_rejects_reuse :
   spec_accepts [] [(MkSym 0 nm_a, OSym nm_a 5); (MkSym 1 nm_a, OSym nm_a 6)] = false /\
   spec_accepts [] [(MkSym 0 nm_a, OSym nm_a 5); (Dup 0, ONone); (GenSym 1 nm_g, OSym [103; 54] 6)] = true.
 Proof. exact SymtabProofs.ex_spec_rejects_reuse. Qed.
+
+(* ---- 7. script level (Model/SymtabScript.v): the routes by which PROGRAMS intern and generate symbols —
+        (str2sym), reading a text through the family's shared parser (which interns through the root),
+        (gensym), (gensym "p"), anonymous functions, loops, labelled loops, packages, range loops, forms run
+        in an internal Duplicate (macro call, macexpand, expectError, source), top-level def / lookup in the
+        shared global scope, Duplicate, Clone — by any member, in any order.  A script history compiles
+        to a table history (script_ops); every statement below holds for ALL script histories. ---- *)
+
+(* tie T: every call of GenSymbol / Duplicate() in zygo/*.go (Generated/GensymSites.v, regenerated on every
+   run) is one of the modelled constructs, and every modelled prefix / function occurs in the source *)
+Theorem gensym_sites_modelled : sites_modelled = true.
+Proof. exact SymtabScriptProofs.sites_modelled_ok. Qed.
+Print Assumptions gensym_sites_modelled.
+
+Theorem script_tables_inverse_preserved : forall ks lay st,
+  tables_inverse st -> tables_inverse (fst (script_run st lay ks)).
+Proof. exact SymtabScriptProofs.script_tables_inverse_preserved. Qed.
+Print Assumptions script_tables_inverse_preserved.
+
+(* the search loops of every construct terminate, whatever names scripts interned before
+   (a for loop / anonymous function after a def of __loopN / __anonN does not hang) *)
+Theorem script_never_out_of_fuel : forall ks lay st, ~ In OFuel (snd (script_run st lay ks)).
+Proof. exact SymtabScriptProofs.script_never_out_of_fuel. Qed.
+Print Assumptions script_never_out_of_fuel.
+
+(* members that exist when they act, parser owners that exist: no bad-member outcome *)
+Theorem script_no_bad_member : forall ks lay st, length lay = length (nexts st) ->
+  layout_ok lay = true -> members_valid lay ks = true ->
+  ~ In OBadMember (snd (script_run st lay ks)).
+Proof. exact SymtabScriptProofs.script_no_bad_member. Qed.
+Print Assumptions script_no_bad_member.
+
+Theorem script_equal_iff_same_name : forall st lay ks n1 k1 n2 k2, tables_inverse st ->
+  symbol_of st (script_ops lay ks) n1 k1 -> symbol_of st (script_ops lay ks) n2 k2 -> (k1 = k2 <-> n1 = n2).
+Proof. exact SymtabScriptProofs.script_equal_iff_same_name. Qed.
+Print Assumptions script_equal_iff_same_name.
+
+Theorem script_refines_spec : forall ks lay st, wf_tables st -> length lay = length (nexts st) ->
+  layout_ok lay = true -> members_valid lay ks = true ->
+  spec_accepts (symtable st) (combine (script_ops lay ks) (snd (script_run st lay ks))) = true.
+Proof. exact SymtabScriptProofs.script_refines_spec. Qed.
+Print Assumptions script_refines_spec.
+
+(* any symbol generated anywhere in a script history differs (name and number) from every symbol that
+   existed or was returned before it *)
+Theorem script_generated_fresh : forall st lay ks ops1 j p ops2 nm k, tables_inverse st ->
+  script_ops lay ks = ops1 ++ GenSym j p :: ops2 ->
+  nth_error (snd (script_run st lay ks)) (length ops1) = Some (OSym nm k) ->
+  forall n' k', symbol_of st ops1 n' k' -> n' <> nm /\ k' <> k.
+Proof. exact SymtabScriptProofs.script_generated_fresh. Qed.
+Print Assumptions script_generated_fresh.
+
+(* the m-th temporary of ONE construct (for every generator prefix of the code: __gensym, __anon, __loop,
+   __loop_<label>_, __range_src/_len/_i/_pair, a package name, a script's own prefix), compiled by any member
+   after any script history, differs from every symbol existing then and from the construct's earlier temporaries *)
+Theorem construct_temporaries_fresh : forall st lay ks1 i reads s ks2 m nm k, tables_inverse st ->
+  let lay1 := script_layout lay ks1 in
+  let pre := script_ops lay ks1 ++ map (MkSym (nth i lay1 i)) reads
+             ++ firstn m (map (GenSym i) (site_prefixes s)) in
+  (m < length (site_prefixes s))%nat ->
+  nth_error (snd (script_run st lay (ks1 ++ (i, KForm reads s) :: ks2))) (length pre) = Some (OSym nm k) ->
+  forall n' k', symbol_of st pre n' k' -> n' <> nm /\ k' <> k.
+Proof. exact SymtabScriptProofs.construct_temporaries_fresh. Qed.
+Print Assumptions construct_temporaries_fresh.
+
+(* the variable map: the family's shared global scope, a Go map keyed by symbol NUMBERS, behaves in every
+   script history exactly like a map keyed by NAMES (nscope_run: no tables, no numbers, no members) *)
+Theorem global_scope_by_name : forall ks st lay g ng, tables_inverse st -> scope_rel st g ng ->
+  length lay = length (nexts st) -> layout_ok lay = true -> members_valid lay ks = true ->
+  snd (scope_run st lay g ks) = nscope_run ng ks.
+Proof. exact SymtabScriptProofs.global_scope_by_name. Qed.
+Print Assumptions global_scope_by_name.
+
+Theorem empty_scope_related : forall st, scope_rel st [] [].
+Proof. exact SymtabScriptProofs.scope_rel_empty. Qed.
+Print Assumptions empty_scope_related.
+
+Example ex_loop_after_colliding_names :
+  snd (script_run (mkState [] [] [5]) [0%nat]
+        [(0%nat, KStr2sym (p_loop ++ itoa 7)); (0%nat, KStr2sym (p_loop ++ itoa 8)); (0%nat, KForm [nm_x] GsLoop)]) =
+  [OSym (p_loop ++ itoa 7) 5; OSym (p_loop ++ itoa 8) 6; OSym nm_x 7; OSym (p_loop ++ itoa 9) 8].
+Proof. exact SymtabScriptProofs.ex_loop_after_colliding_names. Qed.
+
+Example ex_parser_shared :
+  script_run (mkState [] [] [5]) [0%nat]
+    [(0%nat, KDup); (0%nat, KForm [] GsGensym); (1%nat, KForm [nm_rk] GsAnonFn); (1%nat, KInDup [] GsGensym)] =
+  (mkState [(p_gensym ++ itoa 8, 8); (p_anon ++ itoa 5, 7); (nm_rk, 6); (p_gensym ++ itoa 5, 5)]
+           [(8, p_gensym ++ itoa 8); (7, p_anon ++ itoa 5); (6, nm_rk); (5, p_gensym ++ itoa 5)] [7; 8; 9],
+   [ONone; OSym (p_gensym ++ itoa 5) 5; OSym nm_rk 6; OSym (p_anon ++ itoa 5) 7; ONone; OSym (p_gensym ++ itoa 8) 8]).
+Proof. exact SymtabScriptProofs.ex_parser_shared. Qed.
+
+Example ex_empty_name :
+  snd (run (mkState [] [] [5]) [Clone 0; MkSym 0 []; MkSym 1 []; MkSym 1 nm_x; GenSym 0 []; MkSym 1 (itoa 6)]) =
+  [ONone; OSym [] 5; OSym [] 5; OSym nm_x 6; OSym (itoa 6) 7; OSym (itoa 6) 7].
+Proof. exact SymtabScriptProofs.ex_empty_name. Qed.
+
+Example ex_global_scope :
+  snd (scope_run (mkState [] [] [5]) [0%nat] [] [(0%nat, KClone); (0%nat, KDef nm_x 42); (1%nat, KGet nm_x); (1%nat, KGet nm_rk)]) =
+  [GNone; GVal (Some 42); GVal (Some 42); GVal None].
+Proof. exact SymtabScriptProofs.ex_global_scope. Qed.
